@@ -61,8 +61,8 @@ def stream(container, tracks, versions, base, step, per=1, **kw):
     return s
 
 
-def ver(ms, n, end=False, typ="", hint=0):
-    return {"ms": ms, "n": n, "end": end, "type": typ, "hint": hint}
+def ver(ms, n, end=False, typ="", hint=0, wait=0):
+    return {"ms": ms, "n": n, "end": end, "type": typ, "hint": hint, "wait": wait}
 
 
 def scenario(entry, streams, tag, **kw):
@@ -164,7 +164,7 @@ def fetch_scenarios(hists, rnd, limit):
             ms_n = (h - 1) // 2         # segments complete before the hinted part (PPS = 2)
             n = rnd.randint(1, min(4, ms_n))
             vs.append(ver(ms_n - n, n, False, "", h))
-        vs.append(ver(vs[-1]["ms"], vs[-1]["n"], False, "", 0))      # the hint disappears: the run ends
+        vs.append(ver(vs[-1]["ms"], vs[-1]["n"], False, "", 0, wait=60))      # the hint disappears: the run ends
         tr = [H264] + ([opus()] if rnd.random() < 0.5 else [])
         st = stream("fmp4", tr, vs, [900000 if t["codec"] == "h264" else 480000 for t in tr], [step_of(t, "fmp4") for t in tr], 2,
                     ll=True, canSkip=rnd.random() < 0.5, query=rnd.choice(["", "tok=1"]), segDurMs=40, dateTime=rnd.random() < 0.5)
@@ -176,6 +176,31 @@ def time_scenarios(rnd, count):
     """C10: synthesised streams over timestamp bases, time scales, track orders, B-frame offsets, fragments, byte ranges, date-times"""
     scs = []
     for k in range(count):
+        if k % 8 == 7:
+            # Low-Latency: parts fetched through the preload hint, one unit per part
+            h0 = rnd.randint(3, 12) * 2 + rnd.choice([1, 2])
+            vs = []
+            for q in range(rnd.randint(3, 6)):
+                h = h0 + q
+                ms_n = (h - 1) // 2
+                n = rnd.randint(1, min(4, ms_n))
+                vs.append(ver(ms_n - n, n, False, "", h))
+            vs.append(ver(vs[-1]["ms"], vs[-1]["n"], False, "", 0, wait=120))
+            auds = [rnd.choice([aac(rnd.choice([48000, 44100, 32000, 90000]), rnd.choice([48000, 44100])), opus(rnd.choice([48000, 90000]))])
+                    for _ in range(rnd.randint(0, 2))]
+            tr = [H264] + auds
+            order = list(range(len(tr)))
+            rnd.shuffle(order)
+            tr = [tr[i] for i in order]
+            lead_base = rnd.choice([0, 90000 * 7 + 13, rnd.randint(0, 1 << 40), (1 << 40) - rnd.randint(0, 99)])
+            bases = [lead_base if t["codec"] == "h264" else max(0, lead_base * t["scale"] // 90000 + rnd.choice([0, 1, -1]) * step_of(t, "fmp4")
+                                                                + rnd.choice([0, 7, -5])) for t in tr]
+            ids = list(range(1, len(tr) + 1))
+            rnd.shuffle(ids)
+            st = stream("fmp4", tr, vs, bases, [step_of(t, "fmp4") for t in tr], 2, ll=True, canSkip=rnd.random() < 0.5,
+                        query=rnd.choice(["", "tok=1"]), segDurMs=40, dateTime=rnd.random() < 0.6, trackIds=ids)
+            scs.append(scenario("media", [st], "timell%d" % k))
+            continue
         container = rnd.choice(["ts", "fmp4"])
         multi = rnd.random() < 0.35
         naud = rnd.randint(0, 3)
